@@ -142,7 +142,7 @@ pub fn c01_strategy() -> BoxedStrategy<Case> {
 }
 
 pub fn c02_strategy() -> BoxedStrategy<Case> {
-    let w = W { nt: 1, ns: 2, p_async: 0.15, long_ack: 1, ack: 12, nack: 3, modify: 2, advance: 8, create_sub: 0, delete_sub: 0, create_topic: 0, delete_topic: 0, bad_refs: 3, stream_send: 4, ..W::default() };
+    let w = W { nt: 1, ns: 2, p_async: 0.15, long_ack: 1, malformed_refs: 3, ack: 12, nack: 3, modify: 2, advance: 8, create_sub: 0, delete_sub: 0, create_topic: 0, delete_topic: 0, bad_refs: 3, stream_send: 4, ..W::default() };
     arb_case(w, 1..=1, 2..=2, 6..36, 0)
 }
 
@@ -528,6 +528,9 @@ pub fn c11_strategy() -> BoxedStrategy<Case> {
         settle: 5,
         check_lists: 6,
         advance: 1,
+        get_topic: 2,
+        abandon_ctrl: 3,
+        list_tok: 2,
         ..W::default()
     };
     // yield point between manager insert and attach is point index 0
@@ -547,7 +550,7 @@ pub fn c12_strategy() -> BoxedStrategy<Case> {
     let s0 = S { p: 0, i: 0 };
     let t0 = T { p: 0, i: 0 };
     let waiter = prop_oneof![
-        4 => prop_oneof![Just(0i32), Just(10)].prop_map(move |max_out| Op::StreamOpen { s: s0, max_out }),
+        4 => prop_oneof![Just(0i32), Just(10), Just(1), Just(2)].prop_map(move |max_out| Op::StreamOpen { s: s0, max_out }),
         3 => Just(Op::Pull { s: s0, max: 5, ri: false, a: true }),
         1 => Just(Op::StreamCloseSend { k: 0 }),
         1 => Just(Op::StreamCloseSend { k: 1 }),
@@ -566,7 +569,8 @@ pub fn c12_strategy() -> BoxedStrategy<Case> {
         .prop_map(move |(sched_seed, fanout_seed, points, prefill, waiters, settle_first, racers, async_del, after, abandon)| {
             let mut ops = vec![Op::CreateTopic { t: t0, a: false }, Op::CreateSub { s: s0, t: t0, dl: 10, push: 0, a: false }];
             if prefill {
-                ops.push(Op::Publish { t: t0, n: 2, payload: Payload::plain(), a: false });
+                // enough backlog to bring a stream with a small limit up to it (and wake it again)
+                ops.push(Op::Publish { t: t0, n: 2 + (sched_seed % 4) as u8, payload: Payload::plain(), a: false });
                 ops.push(Op::Pull { s: s0, max: 1, ri: true, a: false });
             }
             ops.extend(waiters);
@@ -682,32 +686,52 @@ pub fn c13_strategy(big: bool) -> BoxedStrategy<Case> {
     let sizes = prop_oneof![
         Just(i32::MIN), Just(-1), Just(0), Just(1), Just(2), Just(3), Just(19), Just(20), Just(21), Just(39), Just(40), Just(41), Just(999), Just(1000), Just(1001), Just(i32::MAX),
     ];
-    (any::<u64>(), cnt.clone(), cnt, vec((0u8..4, 0u8..60), 0..6), vec((0u8..3, 0u8..2, sizes.clone()), 1..6), vec((0u8..3, 0u8..2, sizes, arb_tok()), 0..5))
-        .prop_map(|(sched_seed, ntop, nsub, deletes, walks, toks)| {
+    // after the initial population: mutations, walks and single list calls in any order, so that
+    // a listing is also taken before *and* after a change of the same topic / project
+    #[derive(Clone, Debug)]
+    enum Step {
+        Mutate(u8, u8),
+        Walk(u8, u8, i32),
+        Tok(u8, u8, i32, Tok),
+    }
+    let step = prop_oneof![
+        5 => (0u8..6, 0u8..60).prop_map(|(k, j)| Step::Mutate(k, j)),
+        5 => (0u8..3, 0u8..2, sizes.clone()).prop_map(|(k, p, s)| Step::Walk(k, p, s)),
+        2 => (0u8..3, 0u8..2, sizes, arb_tok()).prop_map(|(k, p, s, t)| Step::Tok(k, p, s, t)),
+    ];
+    (any::<u64>(), cnt.clone(), cnt, vec(step, 2..16))
+        .prop_map(|(sched_seed, ntop, nsub, steps)| {
             let mut ops = Vec::new();
-            // topics spread over two projects; subscriptions over two topics of project 0
+            // topics spread over two projects; subscriptions over two topics of project 0 and one
+            // of project 1, created in alternation (project mix in creation order)
             for i in 0..ntop {
                 ops.push(Op::CreateTopic { t: T { p: i % 2, i: i / 2 }, a: false });
             }
             ops.push(Op::CreateTopic { t: T { p: 0, i: 200 }, a: false });
             ops.push(Op::CreateTopic { t: T { p: 0, i: 201 }, a: false });
+            ops.push(Op::CreateTopic { t: T { p: 1, i: 200 }, a: false });
+            let sub_topic = |p: u8, j: u8| if p == 1 { T { p: 1, i: 200 } } else { T { p: 0, i: 200 + (j % 3 == 2) as u8 } };
             for j in 0..nsub {
-                let t = T { p: 0, i: 200 + (j % 3 == 2) as u8 };
-                ops.push(Op::CreateSub { s: S { p: 0, i: j }, t, dl: 10, push: 0, a: false });
+                let p = (j % 3 == 1) as u8;
+                ops.push(Op::CreateSub { s: S { p, i: j }, t: sub_topic(p, j), dl: 10, push: 0, a: false });
             }
-            for (k, j) in deletes {
-                match k {
-                    0 => ops.push(Op::DeleteTopic { t: T { p: j % 2, i: (j / 2) % (ntop / 2 + 1) }, a: false }),
-                    1 => ops.push(Op::DeleteSub { s: S { p: 0, i: j % (nsub + 1) }, a: false }),
-                    2 => ops.push(Op::CreateTopic { t: T { p: j % 2, i: 100 + j }, a: false }),
-                    _ => ops.push(Op::CreateSub { s: S { p: 0, i: 100 + j }, t: T { p: 0, i: 200 }, dl: 10, push: 0, a: false }),
+            for st in steps {
+                match st {
+                    Step::Mutate(k, j) => match k {
+                        0 => ops.push(Op::DeleteTopic { t: T { p: j % 2, i: (j / 2) % (ntop / 2 + 1) }, a: false }),
+                        1 | 2 => {
+                            let i = j % (nsub + 1);
+                            ops.push(Op::DeleteSub { s: S { p: (i % 3 == 1) as u8, i }, a: false })
+                        }
+                        3 => ops.push(Op::CreateTopic { t: T { p: j % 2, i: 100 + j }, a: false }),
+                        _ => {
+                            let p = j % 2;
+                            ops.push(Op::CreateSub { s: S { p, i: 100 + j }, t: sub_topic(p, j), dl: 10, push: 0, a: false })
+                        }
+                    },
+                    Step::Walk(kind, p, size) => ops.push(Op::Walk { kind, p, t: T { p, i: 200 }, size }),
+                    Step::Tok(kind, p, size, tok) => ops.push(Op::ListTok { kind, p, t: T { p: 0, i: 200 }, size, tok }),
                 }
-            }
-            for (kind, p, size) in walks {
-                ops.push(Op::Walk { kind, p, t: T { p: 0, i: 200 }, size });
-            }
-            for (kind, p, size, tok) in toks {
-                ops.push(Op::ListTok { kind, p, t: T { p: 0, i: 200 }, size, tok });
             }
             Case { sched_seed, phase_us: 0, fanout_seed: 0, points: vec![], ops }
         })
@@ -865,6 +889,9 @@ pub fn run_worker(ctx: &WorkerCtx) -> WorkerOut {
             let nt = |_: &Case, r: &Report| r.feat.overlapping_control_on_name;
             run_sim_stage(ctx, SimStage { name: "namespaces", strategy: c10_strategy(), cfg: sim_cfg(false), cases: ctx.share(scale(t, 24_000, 240_000)), nontrivial: &nt, classes: &std_classes, extra: None }, &mut out);
             run_sim_stage(ctx, SimStage { name: "name_races", strategy: control_race_strategy(), cfg: sim_cfg(false), cases: ctx.share(scale(t, 12_000, 120_000)), nontrivial: &nt, classes: &std_classes, extra: None }, &mut out);
+            // "once a create has returned, every later request observes it" for more resources than
+            // one page can hold (1003 topics / subscriptions, listed with sizes around the cap)
+            run_case_list(ctx, "lists_1003", c13_big_cases(t), &RunCfg { horizon: false, drain: false, qp_each_op: false }, &mut out);
         }
         "C11" => {
             let nt = |_: &Case, r: &Report| r.feat.delete_then_recreate_with_survivor;
